@@ -50,7 +50,7 @@ CMP = ["<", ">", "<=", ">=", "==", "!="]
 class Profile:
     """what the generator may produce"""
     functions: bool = True
-    max_funcs: int = 3
+    max_funcs: int = 2
     loops: bool = True
     nested_loops_in_functions: bool = False   # known finding F-C04-a
     for_range: bool = True
@@ -67,8 +67,11 @@ class Profile:
     terminating_main_with_functions: bool = False   # known finding F-C07-a
     early_return_in_tail_caller: bool = False       # known finding F-C02-a
     push_pop_user: bool = False
+    calls_in_for_list: bool = False                 # known finding F-C06-a (ra clobbered inside the for-list body subroutine)
+    max_globals: int = 4
+    max_index_list: int = 5                         # known finding F-C01-f (jump table for 6 and more elements picks the neighbour)
     max_stmts: int = 7
-    max_depth: int = 3
+    max_depth: int = 2
     modules: int = 0
 
 
@@ -117,6 +120,8 @@ def load_structs():
                 v = p.fget(inst)
             except Exception:
                 continue
+            if attr in ("Maximum", "Minimum", "Average", "Sum"):
+                continue   # also a batch-method name: `Xs.Maximum.…` is ambiguous in the dialect
             if isinstance(v, T._DeviceLogicType) and isinstance(v._logic_type, LogicType):
                 reads.append((attr, int(v._logic_type)))
                 if p.fset is not None:
@@ -167,6 +172,7 @@ class Gen:
         self.pool: set[float] = set([0.0, 1.0, -1.0, 0.5, 2.0, 100.0, 3.0])
         self.used_names = set()
         self.calls_of: dict[str, int] = {}
+        self.all_globals: set[str] = set()
         self.cur_func_index = None
 
     # -- helpers ---------------------------------------------------------------------------
@@ -292,6 +298,8 @@ class Gen:
             return ("prim", f, [a])
         if k < 0.92 and self.p.index_lists and sc.loopvars_int:
             lv, n = r.choice(sc.loopvars_int)
+            if n > self.p.max_index_list:
+                return self.read_expr(sc, depth)
             vals = [("num", float(r.choice([3, 6, 7, 90, 91, 92, 123, 456, 777, 12, 0.5]))) for _ in range(n)]
             for v in vals:
                 self.pool.add(v[1])
@@ -389,12 +397,14 @@ class Gen:
                 sc.locals_.append(n)
             self.feat("assign_local")
             return ("lassign", n, e)
-        if self.gvars and r.random() < 0.75:
+        named = [g for g in self.gvars if g.startswith("g")]
+        if self.gvars and (r.random() < 0.75 or len(self.all_globals) >= self.p.max_globals):
             n = r.choice([g for g in self.gvars])
             self.gvars_multi.add(n)
         else:
             n = self.fresh("g")
             self.gvars.append(n)
+            self.all_globals.add(n)
         self.feat("assign_global")
         return ("gassign", n, e)
 
@@ -438,10 +448,16 @@ class Gen:
             return [self.aug_stmt(sc)]
         if k < 0.70 and can_nest:
             c = self.bool_expr(sc, 1) if r.random() < 0.85 else self.expr(sc, 1, allow_call=False)
-            if c[0] not in ("bin", "un") or (c[0] == "bin" and c[1] not in ("slt", "sgt", "sle", "sge", "seq", "sne", "and", "or")):
-                # `if <name or attribute>` is supported; other expression kinds are not a valid test → use a comparison
-                if c[0] not in ("gvar", "lvar", "read"):
-                    c = ("bin", "sgt", c, ("num", 0.0))
+            CMPS = ("slt", "sgt", "sle", "sge", "seq", "sne", "and", "or")
+            def testable(e, top=True):
+                # supported `if` tests: comparison, and/or, a name, an attribute read, and `not` of one of those (once)
+                if e[0] == "bin":
+                    return e[1] in CMPS
+                if e[0] == "un" and e[1] == "not" and top:
+                    return testable(e[2], False)
+                return e[0] in ("gvar", "lvar") or (e[0] == "read" and e[1] == "l")
+            if not testable(c):
+                c = ("bin", "sgt", c, ("num", 0.0))
             save_l, save_g = list(sc.locals_), list(self.gvars)
             t = self.block(sc, depth + 1, in_func_ret=in_func_ret)
             tl, tg = sc.locals_, self.gvars
@@ -517,22 +533,29 @@ class Gen:
                 sc.loopvars.append(lv)
                 sc.loop_kind.append("forlist")
                 save_p = self.p.functions
-                body = self.block(sc, depth + 1, in_func_ret=in_func_ret)
+                if not self.p.calls_in_for_list:
+                    self.p.functions = False
+                try:
+                    body = self.block(sc, depth + 1, in_func_ret=in_func_ret)
+                finally:
+                    self.p.functions = save_p
                 sc.loop_kind.pop()
                 sc.loopvars.remove(lv)
                 self.feat("for_list")
                 return ("forList", not sc.is_func, lv, vals, body)
             # while with a counter so that it terminates
-            cn = self.fresh("n")
+            cn = f"n{sc.in_loop}" + ("" if not sc.is_func else "f")
             lim = float(r.choice([2, 3, 4, 5]))
             if sc.is_func:
                 init = ("lassign", cn, ("num", 0.0))
-                sc.locals_.append(cn)
+                if cn not in sc.locals_:
+                    sc.locals_.append(cn)
                 cv = ("lvar", cn)
                 inc = ("lassign", cn, ("bin", "add", cv, ("num", 1.0)), {"aug": "+"})
             else:
                 init = ("gassign", cn, ("num", 0.0))
-                self.gvars.append(cn)
+                if cn not in self.gvars:
+                    self.gvars.append(cn)
                 self.gvars_multi.add(cn)
                 cv = ("gvar", cn)
                 inc = ("gassign", cn, ("bin", "add", cv, ("num", 1.0)), {"aug": "+"})
@@ -558,7 +581,7 @@ class Gen:
     # -- functions / program -------------------------------------------------------------------
     def gen_function(self, idx, name):
         r = self.r
-        params = [self.fresh("a") for _ in range(r.choice([0, 1, 1, 2, 3]))]
+        params = [self.fresh("a") for _ in range(r.choice([0, 1, 1, 2, 2, 3] if self.p.max_funcs > 2 else [0, 1, 1, 2]))]
         returns = r.random() < 0.6
         sc = Scope(is_func=True, params=params)
         sc.loopvars_int = []
